@@ -30,6 +30,10 @@ pub struct Trace {
     /// (files beyond 64 KiB / 16 MiB; the final word decides between a valid end and a late parse error)
     #[serde(default)]
     pub big: Option<(u32, u32)>,
+    /// hand the bytes over through a named pipe instead of a regular file (a readable input file whose
+    /// size is not known in advance and which delivers short reads)
+    #[serde(default)]
+    pub via_fifo: bool,
 }
 
 pub struct C20;
@@ -49,9 +53,30 @@ struct ExecOut {
     timed_out: bool,
 }
 
-fn run_with_timeout(mut cmd: Command, secs: u64) -> std::io::Result<ExecOut> {
-    cmd.stdin(Stdio::null()).stdout(Stdio::piped()).stderr(Stdio::piped());
+fn run_with_timeout(cmd: Command, secs: u64) -> std::io::Result<ExecOut> {
+    run_inner(cmd, None, secs)
+}
+
+fn run_with_stdin(cmd: Command, data: Vec<u8>, secs: u64) -> std::io::Result<ExecOut> {
+    run_inner(cmd, Some(data), secs)
+}
+
+fn run_inner(mut cmd: Command, stdin_data: Option<Vec<u8>>, secs: u64) -> std::io::Result<ExecOut> {
+    cmd.stdin(if stdin_data.is_some() { Stdio::piped() } else { Stdio::null() }).stdout(Stdio::piped()).stderr(Stdio::piped());
     let mut child = cmd.spawn()?;
+    if let Some(data) = stdin_data {
+        let mut w = child.stdin.take().unwrap();
+        std::thread::spawn(move || {
+            use std::io::Write;
+            for chunk in data.chunks(4093) {
+                if w.write_all(chunk).is_err() {
+                    break;
+                }
+                let _ = w.flush();
+            }
+            // dropping `w` closes the pipe: end of file for the reader
+        });
+    }
     let mut so = child.stdout.take().unwrap();
     let mut se = child.stderr.take().unwrap();
     // outputs are small (a few KB); read them on helper threads so a full pipe cannot stall the child
@@ -181,7 +206,8 @@ impl Property for C20 {
         } else {
             None
         };
-        Trace { source, faults, eintr_at: if big.is_some() { None } else { eintr_at }, big }
+        let via_fifo = big.is_none() && eintr_at.is_none() && rng.chance(1, 12);
+        Trace { source, faults, eintr_at: if big.is_some() { None } else { eintr_at }, big, via_fifo }
     }
 
     fn execute(t: &Trace, cov: &mut Cov) -> RunOut {
@@ -228,13 +254,21 @@ impl Property for C20 {
         let dir = scratch_dir().join(format!("c20-{}", std::process::id()));
         let _ = std::fs::create_dir_all(&dir);
         let path = dir.join("input.spv");
-        if let Err(e) = std::fs::write(&path, &bytes) {
+        if t.via_fifo {
+            cov.hit("fault.input_is_a_pipe");
+        } else if let Err(e) = std::fs::write(&path, &bytes) {
             eprintln!("HARNESS-ERROR: cannot write {}: {}", path.display(), e);
             std::process::exit(3);
         }
         let bin = dis_bin();
         let mut injected = false;
         let out = match t.eintr_at {
+            None if t.via_fifo => {
+                // the input is a pipe (/dev/stdin): size unknown in advance, data arrives in pieces
+                let mut c = Command::new(&bin);
+                c.arg("/dev/stdin");
+                run_with_stdin(c, bytes.clone(), 20)
+            }
             None => {
                 let mut c = Command::new(&bin);
                 c.arg(&path);
@@ -321,6 +355,11 @@ impl Property for C20 {
         if t.eintr_at.is_some() {
             let mut c = t.clone();
             c.eintr_at = None;
+            out.push(c);
+        }
+        if t.via_fifo {
+            let mut c = t.clone();
+            c.via_fifo = false;
             out.push(c);
         }
         if let Some((count, tail)) = t.big {
